@@ -160,6 +160,15 @@ TDump == /\ IsEvent("dump") /\ UNCHANGED <<fs, objs, errloc, Globals>>
                  Check(~Ev.isnull /\ Ev.st = want /\ ((Has("cmp_path") /\ ~Ev.cmp_path) \/ Ev.path = objs[Ev.h].path), [st |-> want, path |-> objs[Ev.h].path])
 TErrLoc == /\ IsEvent("errloc") /\ UNCHANGED <<fs, objs, errloc, Globals>>
            /\ Check(errloc.valid => (Ev.file = errloc.file /\ Ev.line = errloc.line), errloc)
+\* econf_getExtValue on an entry that stems from a parsed file and is still in an object with that file's path
+TExt == /\ IsEvent("ext") /\ UNCHANGED <<fs, objs, errloc, Globals>>
+        /\ IF ~Known(Ev.h) \/ Ev.k = <<>> THEN UNCHANGED diverged
+           ELSE LET o == objs[Ev.h]  i == FindE(o, GroupArg(Ev.g), Ev.k[1]) IN
+                IF i = 0 THEN Check(~Ok(Ev.rc), [rc |-> "ECONF_NOKEY"])
+                ELSE IF o.path = <<>> \/ o.ents[i].line = 0 THEN UNCHANGED diverged      \* merged / built: not a parsed file's entry
+                ELSE LET w == ExtOf(o, i) IN
+                     Check(Ok(Ev.rc) /\ Ev.line = w.line /\ Ev.vals = w.vals /\ (o.opt.join \/ (Ev.cb = w.cb /\ Ev.ca = w.ca))
+                           /\ ((Has("cmp_path") /\ ~Ev.cmp_path) \/ Ev.file = w.file), w)
 \* listings (C11): sections in order of first appearance, keys of one section in entry order; an absent / empty section: ECONF_NOKEY
 TKeys == /\ IsEvent("keys") /\ UNCHANGED <<fs, objs, errloc, Globals>>
          /\ IF ~Known(Ev.h) THEN UNCHANGED diverged
@@ -186,7 +195,7 @@ TReadOpaque == IsEvent("readopaque") /\ objs' = AfterRead(Ev.h, IF Ok(Ev.rc) THE
                /\ UNCHANGED <<fs, diverged, Globals>>
 TOpaque == IsEvent("opaque") /\ objs' = (IF Ev.h # 0 /\ Live(Ev.h) THEN [objs EXCEPT ![Ev.h] = Opaque] ELSE objs) /\ UNCHANGED <<fs, errloc, diverged, Globals>>
 Next == TReset \/ TFile \/ TNoFile \/ TForget \/ TNew \/ TNewOpt \/ TReadFile \/ TReadDirs \/ TReadConfig \/ TReadHist \/ TSet \/ TGet
-        \/ TMerge \/ TWrite \/ TFree \/ TDump \/ TErrLoc \/ TKeys \/ TGroups \/ TSetTag \/ TSetConfDirs \/ TSecFlag \/ TSecReset \/ TOpaque \/ TRefused \/ TReadOpaque
+        \/ TMerge \/ TWrite \/ TFree \/ TDump \/ TErrLoc \/ TKeys \/ TGroups \/ TSetTag \/ TSetConfDirs \/ TSecFlag \/ TSecReset \/ TOpaque \/ TRefused \/ TReadOpaque \/ TExt
 Spec == Init /\ [][Next]_vars
 Accepted == TLCGet("stats").diameter - 1 = Len(Tr)
 =============================================================================
